@@ -9,6 +9,12 @@ def make_cases(ctx, tg, n):
     rng = ctx.rng
     roots = ["eml", "dataset", "dataTable", "creator", "attribute", "methods", "additionalMetadata", "project", "coverage", "otherEntity",
              "boundingCoordinates", "geographicCoverage", "physical"]
+    # deep documents: a lineage nested well over a hundred levels with an invalid node far down (every node is validated, at any depth)
+    for depth, bad_at in ((130, 115), (180, 179), (101, 100)):
+        cur = impl.T("taxonomicClassification", None, [impl.T("taxonRankValue", "leaf")])
+        for lvl in range(depth, 0, -1):
+            cur = impl.T("taxonomicClassification", None, [impl.T("taxonRankValue", f"v{lvl}"), cur], [["zzBogus", "1"]] if lvl == bad_at else [])
+        yield cur, [("deep", depth)]
     for i in range(n):
         e = rng.choice(roots)
         t = tg.valid_tree(e, rng, maxdepth=rng.choice([2, 3, 4]), rep=rng.choice([1, 2]))
@@ -45,7 +51,7 @@ def make_cases(ctx, tg, n):
         if rng.random() < 0.4:
             foreign = impl.T(rng.choice(["zzForeign", "dataset", "stmml:unitList"]), gen.rand_text(rng),
                              [impl.T("zzInner", "x", [impl.T("surName")], [["bogus", "1"]]) for _ in range(rng.randint(0, 2))])
-            md = impl.T("metadata", None, [foreign] if rng.random() < 0.8 else [foreign, copy.deepcopy(foreign)])
+            md = impl.T("metadata", None, [] if rng.random() < 0.15 else [foreign] if rng.random() < 0.8 else [foreign, copy.deepcopy(foreign)])
             am = impl.T("additionalMetadata", None, [md])
             gen.strip_ids(am)
             if t[1] == "eml":
@@ -118,6 +124,20 @@ def run(ctx):
             v2 = treeval.tree_views(impl.build(t2))
             if (v2["ff"], v2["coll"], v2["crash"]) != (v["ff"], v["coll"], v["crash"]):
                 what = f"content below metadata influenced the outcome: {v['coll'][:4]} vs {v2['coll'][:4]}"
+            else:
+                # ... "beyond it having at most one child": none or one child is the same to the validator
+                t3 = copy.deepcopy(t)
+                toggled = False
+                for _, x in gen.nodes_of(t3):
+                    if x[1] == "metadata" and len(x[8]) <= 1:
+                        x[8][:] = [] if x[8] else [impl.T("zzOther", "y")]
+                        toggled = True
+                if toggled:
+                    gen.strip_ids(t3)
+                    impl.reset()
+                    v3 = treeval.tree_views(impl.build(t3))
+                    if (v3["ff"], v3["coll"], v3["crash"]) != (v["ff"], v["coll"], v["crash"]):
+                        what = f"a metadata element with no child and one with a single child are judged differently: {v['coll'][:4]} vs {v3['coll'][:4]}"
         if what:
             fails.append({"case": case, "what": what})
         if m is not None:
